@@ -37,6 +37,9 @@ type hstate struct {
 
 // rawRoot recomputes a Merkle root from the node structure, ignoring memoised values.
 func rawRoot(n tree.Node, h tree.HashFn) tree.Root {
+	if f, ok := n.(foreignPair); ok {
+		n = f.PairNode
+	}
 	switch x := n.(type) {
 	case *tree.Root:
 		return *x
